@@ -645,3 +645,64 @@ _base_scn_cd = scenarios
 
 def scenarios():
     return _base_scn_cd() + [compressed_parse(), compressed_bytes()]
+
+
+def userid_codec():
+    """UserID: parse (UTF-8, or the Latin-1 fallback for octets that are not UTF-8), __bytearray__, and the two together:
+    what is written is the CURRENT text of the packet (also after the text of a parsed packet was replaced: no hidden copy of the octets
+    that were read), and an unedited packet is written back with the octets it was read from."""
+    label = 'C08/UserID.parse+__bytearray__'
+    UID = P + 'UserID'
+
+    def gen(repo):
+        r = scn.Run(repo, UID, 'parse', label)
+        ex, st = r.ex, r.st
+        OLD, HL, HDR, NEW = z3.Const('RECEIVED', B), z3.Int('header_length'), z3.Const('HEADER', B), z3.Const('NEW_TEXT_UTF8', B)
+        _hdr(r, HL)
+        st.pc += [HL >= 0, z3.Length(OLD) >= HL]
+        k = z3.Int('k!octet')
+        st.pc.append(z3.ForAll([k], z3.Implies(z3.And(k >= 0, k < z3.Length(OLD)), z3.And(OLD[k] >= 0, OLD[k] < 256))))      # octets
+        buf = ex.new_buf(st, OLD)
+        me = E.VObj(UID, 'pkt')
+        r.set('pkt', 'uid', E.VStr(s=''))
+        r.set('pkt', '_encoding_fallback', E.VBool(False))
+        r.hook('pgpy.packet.types.Packet', '__bytearray__', scn.method_hook(lambda ex, st, o, a: [(st, ex.new_buf(st, HDR))]))
+        VALID = z3.Function('VALID[utf-8]', B, z3.BoolSort())
+        body = z3.Extract(OLD, 0, HL)
+        lk = repo.lookup(UID, '__bytearray__')
+        ser = lambda s: ex.call_func(E.VFunc(lk[2], None, cls=lk[1], self_val=me, mod=repo.classes[lk[1]].module), [], {}, s, {'mod': repo.classes[lk[1]].module})
+        for pi, (s, v) in enumerate(r.call(me, [buf])):
+            if isinstance(v, E.Raise):
+                r.oblige(s, 'safety(%s)/p%d' % (v.exc.split(':')[0], pi), z3.BoolVal(False), v.where)
+                continue
+            r.oblige(s, 'consumes-exactly-the-body/p%d' % pi, s.heap[buf.cell] == z3.Extract(OLD, HL, z3.Length(OLD) - HL))
+            t = s.heap.get(('pkt', 'uid'))
+            okt = isinstance(t, E.VStr) and t.z is not None
+            r.oblige(s, 'text-is-the-body-read-as-utf-8,or-as-latin-1-when-it-is-not-utf-8/p%d' % pi,
+                     z3.And(z3.BoolVal(okt), z3.If(VALID(body), z3.BoolVal(okt and not t.cp), z3.BoolVal(okt and bool(t.cp))), t.z == body) if okt else z3.BoolVal(False))
+            # (1) unedited: written back with the octets it was read from
+            s1 = s.clone()
+            for qi, (s2, v2) in enumerate(ser(s1)):
+                if isinstance(v2, E.Raise):
+                    r.oblige(s2, 'unedited:safety(%s)/p%d.%d' % (v2.exc.split(':')[0], pi, qi), z3.BoolVal(False), v2.where)
+                    continue
+                r.oblige(s2, 'unedited:header-then-the-octets-that-were-read/p%d.%d' % (pi, qi), ex.seq(v2, s2) == z3.Concat(HDR, body))
+            # (2) the text replaced after parsing (UTF-8 path): the NEW text is written
+            s3 = s.clone()
+            s3.pc.append(VALID(body))
+            if ex.feasible(s3, z3.BoolVal(True)):
+                s3.heap[('pkt', 'uid')] = E.VStr(z=NEW)
+                for qi, (s4, v4) in enumerate(ser(s3)):
+                    if isinstance(v4, E.Raise):
+                        r.oblige(s4, 'edited:safety(%s)/p%d.%d' % (v4.exc.split(':')[0], pi, qi), z3.BoolVal(False), v4.where)
+                        continue
+                    r.oblige(s4, 'edited:header-then-the-utf-8-octets-of-the-current-text/p%d.%d' % (pi, qi), ex.seq(v4, s4) == z3.Concat(HDR, NEW))
+        return r.result()
+    return Scenario(label, UID + '.parse', gen, props=('C08', 'C14', 'C07'))
+
+
+_base_scn_ui = scenarios
+
+
+def scenarios():
+    return _base_scn_ui() + [userid_codec()]
